@@ -69,6 +69,32 @@ func rt_23(c *core.Ctx, p *core.Prog) {
 			if os.Getenv("OTELCHECK_DEBUG") != "" && !guarded {
 				fmt.Println("RT.23 unguarded", core.FuncName(fn), p.Pos(cl.Pos()))
 			}
+			// dictionary arms: the values array is indexed through GetValueIndex of the same dictionary array
+			if f.Name() == "Value" && len(cl.Call.Args) == 2 {
+				var dictArr ssa.Value
+				core.BackSlice(cl.Call.Args[0], func(v ssa.Value) bool {
+					if dc, isC := v.(*ssa.Call); isC {
+						if df := core.CalleeObj(dc); df != nil && df.Name() == "Dictionary" && len(dc.Call.Args) == 1 {
+							dictArr = dc.Call.Args[0]
+							return false
+						}
+					}
+					return true
+				})
+				if dictArr != nil {
+					viaIndex := core.DerivesFrom(cl.Call.Args[1], func(v ssa.Value) bool {
+						ic, isC := v.(*ssa.Call)
+						if !isC {
+							return false
+						}
+						jf := core.CalleeObj(ic)
+						return jf != nil && jf.Name() == "GetValueIndex" && len(ic.Call.Args) == 2 && (ic.Call.Args[0] == dictArr || core.SameValue(ic.Call.Args[0], dictArr))
+					})
+					c.Check(viaIndex, fmt.Sprintf("fn=%s|dict#%d", core.FuncName(fn), seen), p.Pos(cl.Pos()), core.FuncName(fn),
+						"the dictionary's values are indexed through GetValueIndex(row) of the same dictionary array",
+						fn.Name()+" indexes the values of a dictionary with something else than GetValueIndex(row) of that dictionary array (e.g. the row number): every dictionary-encoded column decodes to the wrong entries")
+				}
+			}
 			key := fmt.Sprintf("fn=%s|%s#%d", core.FuncName(fn), f.Name(), seen)
 			c.Check(guarded, key, p.Pos(cl.Pos()), core.FuncName(fn),
 				"the slot is read only on the non-null edge of an IsNull/IsValid test",
